@@ -67,18 +67,24 @@ const PREVOUT_FIELDS_LEN: usize = 33 + 9 + 3;
 // the subject of c03_message.rs / c13_cache.rs. Replacing them here keeps the Ok/Err obligation affordable (measured: the
 // ALL|ANYONECANPAY instance did not finish in 13 min / 7 GB with the real cache code, because CBMC explores the cache
 // closures on every path).
-fn any_digest() -> ShaHash { ShaHash::from_byte_array(kani::any()) }
+// The models do not name the caches' fields (they were re-arranged by the D8 repair): a cache is a plain aggregate of
+// 32-byte digests, every bit pattern is a valid value, so "some digests" is an arbitrary byte image of the struct.
+fn any_common() -> CommonCache {
+    let raw: [u8; core::mem::size_of::<CommonCache>()] = kani::any();
+    unsafe { core::mem::transmute(raw) }
+}
+fn any_taproot() -> TaprootCache {
+    let raw: [u8; core::mem::size_of::<TaprootCache>()] = kani::any();
+    unsafe { core::mem::transmute(raw) }
+}
 // (the models are methods of a generic impl so that their generic parameters line up with those of the stubbed methods)
 struct CacheModels<R>(core::marker::PhantomData<R>);
 impl<R: Deref<Target = Transaction>> CacheModels<R> {
     fn common<'a>(c: &'a mut Option<CommonCache>, _tx: &R) -> &'a CommonCache {
-        c.get_or_insert_with(|| CommonCache { prevouts: any_digest(), sequences: any_digest(), outputs: any_digest(), issuances: any_digest() })
+        c.get_or_insert_with(any_common)
     }
     fn taproot<'a, T: Borrow<TxOut>>(c: &'a mut Option<TaprootCache>, _tx: &R, _prevouts: &[T]) -> &'a TaprootCache {
-        c.get_or_insert_with(|| TaprootCache {
-            script_pubkeys: any_digest(), outpoint_flags: any_digest(), asset_amounts: any_digest(),
-            issuance_rangeproofs: any_digest(), output_witnesses: any_digest(),
-        })
+        c.get_or_insert_with(any_taproot)
     }
 }
 
@@ -171,7 +177,7 @@ one_harness!(taproot_one_none_acp, 2, 1, 0x82, false, false);
 //@ clause: SINGLE|ANYONECANPAY with Prevouts::One: as above, and an input without a corresponding output is Err(SingleWithoutCorrespondingOutput)
 one_harness!(taproot_one_single_acp, 2, 1, 0x83, true, true);
 //@ harness: taproot_one_all_acp class=B tier=quick bound="as taproot_one_none_acp, hash type 0x81" props=C13 timeout=900
-//@ clause: ALL|ANYONECANPAY with Prevouts::One for the signed input succeeds (no other spent output is needed). EXPECTED TO FAIL on the pinned tree: DESIGN section 6, D8
+//@ clause: ALL|ANYONECANPAY with Prevouts::One for the signed input succeeds (no other spent output is needed). (DESIGN section 6, D8: failed before the repair of taproot_encode_signing_data_to, kept as regression check)
 one_harness!(taproot_one_all_acp, 2, 1, 0x81, false, false);
 //@ harness: taproot_one_default_needs_all class=B tier=quick bound="2 inputs, 1 output, hash type 0x00" props=C13,C10 timeout=900
 //@ clause: a hash type without ANYONECANPAY needs all spent outputs: Prevouts::One is Err(PrevoutKind) for every index
@@ -190,7 +196,7 @@ one_harness!(taproot_one_single_needs_all, 2, 1, 0x03, false, false);
 //@ clause: as taproot_one_none_acp on a 1-input transaction
 one_harness!(taproot_one_none_acp_1in, 1, 1, 0x82, false, false);
 //@ harness: taproot_one_all_acp_1in class=B tier=quick bound="1 input, 1 output, hash type 0x81, key path, no annex; all usize indices" props=C13 timeout=900
-//@ clause: ALL|ANYONECANPAY with Prevouts::One for the signed input succeeds. EXPECTED TO FAIL on the pinned tree: DESIGN section 6, D8
+//@ clause: ALL|ANYONECANPAY with Prevouts::One for the signed input succeeds. (DESIGN section 6, D8: failed before the repair of taproot_encode_signing_data_to, kept as regression check)
 one_harness!(taproot_one_all_acp_1in, 1, 1, 0x81, false, false);
 
 //@ harness: hash_model_layout class=F tier=quick props=C13,C03
